@@ -22,8 +22,8 @@ func selftestDeterminism(args []string) {
 			os.Setenv("VERIF_GOMAXPROCS", procs)
 			var fps []string
 			for run := 0; run < n; run++ {
-				spec := Spec{Prop: p.ID, Tier: "quick", Seed: seedEnv(), First: run, Runs: 1, MaxSteps: p.MaxSteps, Params: p.Params, Samples: 1}
-				br, err := runBatch(bi, p, spec, 5*time.Minute)
+				spec := Spec{Prop: p.ID, Tier: "quick", Seed: seedEnv(), First: run, Runs: 1, MaxSteps: p.MaxSteps, RunWallS: p.RunWallS, Params: p.Params, Samples: 1}
+				br, err := runBatch(bi, p, spec, 5*time.Minute+time.Duration(p.RunWallS)*time.Second)
 				if err != nil {
 					infra("%v", err)
 				}
